@@ -45,7 +45,7 @@ def indentStep (st : Nat × Bool) : StackEntry → Nat × Bool
 
 /-- `get_indentation` (the loop runs from the bottom of the stack). -/
 def getIndentation (s : PStack) : Nat :=
-  if inMixed s then 0 else (s.reverse.foldl indentStep (0, false)).1
+  if inMixed s || inSpacePreserve s then 0 else (s.reverse.foldl indentStep (0, false)).1
 
 /-- `get_newline`. -/
 def getNewline (s : PStack) : Bool := !inMixed s && !inSpacePreserve s
@@ -78,7 +78,7 @@ def prettify (suppress : List Nat) (s : PStack) (node : Tree) : Output → PStac
     else (s, 0, false)
   | .endTag _ =>
     if node.firstChild?.isSome then
-      let noIndentation := s.inMixed
+      let noIndentation := s.inMixed || s.inSpacePreserve
       let s' : PStack := s.tail
       (s', if !noIndentation then s'.getIndentation else 0, s'.getNewline)
     else (s, 0, s.getNewline)
